@@ -1072,10 +1072,10 @@ GROUPS["g30"] = [
       "        if let Ok(new_config) = Config::from_lsp_config(json_obj).map_err(|err| error!(\"{err}\")) {\n            let mut config = self.config.write().await;\n            *config = new_config;\n        }\n",
       "        let new_config = Config::from_lsp_config(json_obj).unwrap_or_else(|err| {\n            error!(\"{err}\");\n            Config::default()\n        });\n        let mut config = self.config.write().await;\n        *config = new_config;\n",
       "R-C10-files:config-source:backend::{impl#0}::update_config_from_obj"),
-    E("c07-merged-exact-first-child", ["C07"], "harper-core/src/spell/merged_dictionary.rs",
+    E("c07-merged-exact-first-child", ["C07", "C06"], "harper-core/src/spell/merged_dictionary.rs",
       "        for child in &self.children {\n            if child.contains_exact_word(word) {\n                return true;\n            }\n        }\n        false\n",
       "        self.children\n            .iter()\n            .find(|child| child.contains_word(word))\n            .is_some_and(|child| child.contains_exact_word(word))\n",
-      "R-C07-accept:MergedDictionary::contains_exact_word"),
+      ["R-C07-accept:MergedDictionary::contains_exact_word", "R-C06-union:MergedDictionary::contains_exact_word"]),
 ]
 
 GROUPS["p19"] = [
@@ -1088,4 +1088,11 @@ GROUPS["p19"] = [
       "        if let Ok(new_config) = Config::from_lsp_config(json_obj).map_err(|err| error!(\"{err}\")) {\n            let mut config = self.config.write().await;\n            *config = new_config;\n        }\n",
       "        match Config::from_lsp_config(json_obj) {\n            Ok(new_config) => {\n                let mut config = self.config.write().await;\n                *config = new_config;\n            }\n            Err(err) => error!(\"{err}\"),\n        }\n",
       None),
+]
+
+GROUPS["g30"] += [
+    E("c06-report-without-lowercase-test", ["C06"], "harper-core/src/linting/spell_check.rs",
+      "                    && (self.dictionary.contains_exact_word(word_chars)\n                        || self.dictionary.contains_exact_word(&word_chars.to_lower()))\n",
+      "                    && (self.dictionary.contains_exact_word(word_chars)\n                        || (!word_chars.iter().skip(1).any(|c| c.is_uppercase())\n                            && self.dictionary.contains_exact_word(&word_chars.to_lower())))\n",
+      "R-C06-accept:SpellCheck::lint:report-needs-both-misses"),
 ]
